@@ -118,10 +118,22 @@ func (r *c10Run) authGet(hdr string) string {
 	return fmt.Sprintf("pass status=%d", resp.Status)
 }
 
+// wsConnect retries attempts that end without a verdict (timeout / transport error under load).
 func (r *c10Run) wsConnect(token string) string {
 	r.wsN++
+	res := ""
+	for attempt := 0; attempt < 3; attempt++ {
+		res = r.wsConnectOnce(token)
+		if res == "connected" || strings.HasPrefix(res, "rejected") {
+			return res
+		}
+	}
+	return res
+}
+
+func (r *c10Run) wsConnectOnce(token string) string {
 	u := "ws" + strings.TrimPrefix(r.srv.URL, "http") + "/connection/websocket"
-	cl := centrifuge.NewJsonClient(u, centrifuge.Config{Token: token, Proxy: func(*http.Request) (*url.URL, error) { return nil, nil }})
+	cl := centrifuge.NewJsonClient(u, centrifuge.Config{Token: token, HandshakeTimeout: 10 * time.Second, ReadTimeout: 10 * time.Second, WriteTimeout: 10 * time.Second, Proxy: func(*http.Request) (*url.URL, error) { return nil, nil }})
 	defer cl.Close()
 	res := make(chan string, 4)
 	cl.OnConnected(func(centrifuge.ConnectedEvent) { res <- "connected" })
@@ -139,7 +151,7 @@ func (r *c10Run) wsConnect(token string) string {
 			return "rejected"
 		}
 		return s
-	case <-time.After(5 * time.Second):
+	case <-time.After(20 * time.Second):
 		return "timeout"
 	}
 }
